@@ -4,7 +4,7 @@ Expressions are nested lists  [tag, ...]  from a typed, language-neutral vocabul
 Renderers turn one structured query into Python-flavoured or JavaScript-flavoured RBQL text, in many spellings.
 
     ['field', table, idx, spelling]      spelling in 'var' (a3) | 'arr' (a[3]) | 'attr' (a.name) | 'dq' (a["name"]) | 'sq' (a['name'])
-    ['NR'] ['NF'] ['NU'] ['bNR'] ['aNR']  ['uvar', name]  (a variable defined by the user's init code, see UVARS)
+    ['NR'] ['NF'] ['NU'] ['bNR'] ['aNR']  ['uvar', name]  (a variable defined by the user's init code, see UVARS)  ['uattr', name]  (cfg.name, an attribute of a user object)
     ['str', s, quote]  ['int', n]
     ['concat', e1, e2]  ['len', e]  ['arith', op, e1, e2]  ['cmp', op, e1, e2]
     ['and', e1, e2] ['or', e1, e2] ['not', e]  ['isnone', e]  ['like', e, pattern_literal]
@@ -30,8 +30,11 @@ AGG_FUNCS = ['COUNT', 'MIN', 'MAX', 'SUM', 'AVG', 'VARIANCE', 'MEDIAN', 'ARRAY_A
 # user functions available to generated queries (defined identically in both init codes); the reference knows what they return
 # user variables whose names merely start like a positional column variable (a1c is not a1) or like a built-in one
 UVARS = {'a1c': 'A1C', 'b2b_rate': 'RATE', 'a2z': 'Z', 'b10x': 'X', 'xa1': 'XA1', 'NR2': 'N2', 'aNRx': 'ANRX', 'a_1': 'A_1'}
-INIT_PY = "def f(*a):\n    return 'F' + str(len(a))\ndef g(*a):\n    return ['G', len(a)]\n" + ''.join('%s = %r\n' % kv for kv in sorted(UVARS.items()))
-INIT_JS = "function f(...a) { return 'F' + String(a.length); }\nfunction g(...a) { return ['G', a.length]; }\n" + ''.join('var %s = %r;\n' % kv for kv in sorted(UVARS.items()))
+# attributes of an object of the user's (cfg.speed ...): an attribute access whose root is not a table variable is an ordinary expression (one of the
+# attribute names is also a likely column name)
+UATTRS = {'speed': 'S', 'medium': 'M', 'name': 'N', 'NR': 'R'}
+INIT_PY = "def f(*a):\n    return 'F' + str(len(a))\ndef g(*a):\n    return ['G', len(a)]\n" + ''.join('%s = %r\n' % kv for kv in sorted(UVARS.items())) + 'class _Cfg(object):\n' + ''.join('    %s = %r\n' % kv for kv in sorted(UATTRS.items())) + 'cfg = _Cfg()\n'
+INIT_JS = "function f(...a) { return 'F' + String(a.length); }\nfunction g(...a) { return ['G', a.length]; }\n" + ''.join('var %s = %r;\n' % kv for kv in sorted(UVARS.items())) + 'var cfg = {' + ', '.join('%s: %r' % kv for kv in sorted(UATTRS.items())) + '};\n'
 
 JOIN_TYPES = ['JOIN', 'INNER JOIN', 'LEFT JOIN', 'LEFT OUTER JOIN', 'STRICT LEFT JOIN']
 
@@ -159,6 +162,8 @@ def render_expr(e, ctx, lang):
         return '(%s)' % R(e[1])
     if t == 'uvar':
         return e[1]
+    if t == 'uattr':
+        return 'cfg.%s' % e[1]
     if t == 'upper':
         return '%s.upper()' % R(e[1]) if lang == 'py' else '%s.toUpperCase()' % R(e[1])
     if lang == 'py':
